@@ -269,11 +269,16 @@ func c17Serve(c *core.Ctx) {
 		cons := fname(c17LL, "LimitListener", "SetMaxConnection")
 		ok := false
 		var at ast.Node = f.Body
-		for _, call := range calls(f.Body, false) {
-			if c17IsSemCall(f, call, "SetMaxCount") && len(call.Args) == 1 {
-				at = call
-				if v, isVar := c17Obj(f, c17StripConv(f, call.Args[0])).(*types.Var); isVar && isParam(f, v) {
-					ok = true
+		// anywhere in the reach (the conversion / the call may sit in a helper); the argument is the
+		// parameter itself, a conversion of it, or a local / helper parameter that names such a value
+		fbind := c17NewBind(f, 2)
+		for _, g := range fbind.funcs {
+			for _, call := range calls(g.Body, false) {
+				if c17IsSemCall(g, call, "SetMaxCount") && len(call.Args) == 1 {
+					at = call
+					if v, isVar := fbind.canonObj(call.Args[0]).(*types.Var); isVar && isParam(f, v) {
+						ok = true
+					}
 				}
 			}
 		}
@@ -681,8 +686,9 @@ func c17Reload(c *core.Ctx) {
 // else except consistently with the semaphore's initial capacity in the constructor literal.
 func c17SetMaxPaths(c *core.Ctx, f *flow.Func, cons string) {
 	key := cons + "|forwards on every path"
+	pbind := c17NewBind(f, 2)
 	isP := func(e ast.Expr) bool {
-		v, ok := c17Obj(f, c17StripConv(f, e)).(*types.Var)
+		v, ok := pbind.canonObj(e).(*types.Var)
 		return ok && isParam(f, v)
 	}
 	type cmp struct {
@@ -706,6 +712,10 @@ func c17SetMaxPaths(c *core.Ctx, f *flow.Func, cons string) {
 	const evFwd = "ev:c17:forwarded"
 	sync := func(fld *types.Var) string { return "ev:c17:cache-stored:" + fld.Name() }
 	res := analyze(c, f, flow.Config{NoHavoc: true,
+		Inline: pbind.inline(func(g *flow.Func, n ast.Node) bool {
+			call, ok := n.(*ast.CallExpr)
+			return ok && c17IsSemCall(g, call, "SetMaxCount")
+		}),
 		OnCall: func(st *flow.State, call *ast.CallExpr, callee types.Object, deferred bool) {
 			if c17IsSemCall(f, call, "SetMaxCount") && len(call.Args) == 1 && isP(call.Args[0]) {
 				st.Set(evFwd, flow.True)
